@@ -18,6 +18,9 @@ CHECKS = {
 CHECKS["C17"] = ("exhaustive finite abstract evaluation of the name parser's decision code (token-count classes x role x 'zero' flag x algorithm token x N-class with symbolic N>=2), nullness/ordering (OPTCMP) and factory-exhaustiveness (DISPATCH) rules",
     "The whole decision table of GridNameParser is enumerated abstractly on the current source (exhaustive: true) and compared with the rules of the property, including exception kind, idempotence of the standard name and factory coverage.", "6 C17")
 
+CHECKS["C13"] = ("order-kind dataflow (ASC/DESC/UNORDERED) over the lumping functions, version-stamp (PAIR) abstract interpretation of SQRA.cut_and_merge over all four limit combinations, alias/ownership rule for inputs, abstract interpretation of sqra_normalize (dense and sparse sibling), workflow wiring",
+    "Structural clauses of exact lumping decided for all matrices and operation histories: selectors ascending, index list filtered with the same set in the same order, descending pops, smallest-member representative, groups re-sorted, inputs not mutated, (matrix,list) pair from one version, diagonal = -row sum in both branches. Numerical equality of lumped sums is delegated to scipy and not decided.", "6 C13")
+
 NOT_APPLICABLE = {
     "C06": "Cartesian Voronoi cell geometry is produced by qhull and floating-point predicates (polygon vertex ordering, F2); no static abstract domain in reach separates the failing coordinate configurations; the one structural clause is too thin to claim the property (DESIGN.md section 6, C06).",
     "C07": "distinctness/separation/hemisphere membership of computed coordinates are numerical facts; the row-count and unit-norm clauses are already run-time assertions, so a static restatement would only test the presence of those asserts (DESIGN.md section 6, C07).",
